@@ -44,7 +44,21 @@ fn same_bits(a: f32, b: f32) -> bool {
 }
 
 fn dims_for(rng: &mut Rng, rank: usize, max: usize) -> Vec<usize> {
-    (0..rank).map(|_| rng.range(1, max)).collect()
+    let mut d: Vec<usize> = (0..rank).map(|_| rng.range(1, max)).collect();
+    // every eighth shape is long in one direction (sizes around the powers of two at which
+    // chunked or blocked loops would switch)
+    if rng.range(0, 7) == 0 {
+        let k = rng.range(0, rank - 1);
+        d[k] = *rng.pick(&[31usize, 32, 33, 63, 64, 65, 127, 128, 129, 255, 257, 1025, 4097]);
+        while d.iter().product::<usize>() > 20_000 {
+            let j = (0..rank).filter(|j| *j != k).max_by_key(|j| d[*j]).unwrap_or(k);
+            if j == k || d[j] == 1 {
+                break;
+            }
+            d[j] -= 1;
+        }
+    }
+    d
 }
 
 fn product(d: &[usize]) -> usize {
@@ -373,7 +387,16 @@ fn nested_case(rng: &mut Rng, idx: u64, out: &mut Out) {
 }
 
 fn linalg_case(rng: &mut Rng, idx: u64, out: &mut Out) {
-    let (r, c) = (rng.range(1, 7), rng.range(1, 7));
+    let (mut r, mut c) = (rng.range(1, 7), rng.range(1, 7));
+    if idx % 5 == 4 {
+        let big = *rng.pick(&[63usize, 64, 65, 127, 128, 129, 130, 255, 257, 1023, 1025, 4095, 4096, 4097]);
+        if rng.bool() {
+            r = big;
+        } else {
+            c = big;
+        }
+        out.count("linalg_cases_with_a_long_dimension", 1);
+    }
     let fam = if idx % 3 == 0 { 4 } else { 0 };
     let m = values(rng, r * c, fam);
     let x = values(rng, c, fam);
